@@ -100,9 +100,14 @@ func c06Unauth(c *vk.Ctx, r *rand.Rand, rg *c06Rig, hub *TargetHub, pc probeCase
 	// large inputs are written from a goroutine so that a server that stops reading shows up
 	wdone := make(chan error, 1)
 	go func() { wdone <- cl.WriteRaw(input) }()
+	late := false
 	if pc.FIN {
 		<-wdone
+		late = time.Since(cl.T0) > c06T/2
 		cl.Conn.CloseWrite()
+	} else if len(input) > 0 && len(input) <= 100000 {
+		<-wdone
+		late = time.Since(cl.T0) > c06T/2
 	}
 	stopDribble := make(chan struct{})
 	var dw sync.WaitGroup
@@ -178,6 +183,10 @@ func c06Unauth(c *vk.Ctx, r *rand.Rand, rg *c06Rig, hub *TargetHub, pc probeCase
 	if len(sn.Probes) != 1 {
 		c.Violation("C06/probe-not-reported-once", wit)
 		return false
+	}
+	if late {
+		c.Inconclusive("probe written later than half the handshake timeout after dialling (loaded machine): byte accounting not judged")
+		return true
 	}
 	if !pc.Dribble && sn.Probes[0].Bytes != cl.SentBytes() {
 		wit["probe_bytes"] = sn.Probes[0].Bytes
